@@ -9,7 +9,7 @@ checks, na = [], []
 for p in props:
     pid = p["id"]
     c = cfg.get(pid)
-    if not c or c.get("disabled"):
+    if not c or c.get("disabled") or not c.get("ready"):
         na.append({"property_id": pid, "reason": (c or {}).get("disabled") or "check not built yet (work in progress); the design in DESIGN.md section 4 applies"})
         continue
     checks.append({
